@@ -243,14 +243,14 @@ CELLS = {
 PLANS = {
     "C01": [("core", ["typed1", "unsafe1", "exch8", "typed11", "typedfill", "mapt1"]), ("rel", ["typed1", "unsafe2", "mapt1"]),
             ("drive:wide", ["typed1", "unsafe2", "exch8", "mapt42"]), ("drive:plain", ["typed11", "unsafe1"]),
-            ("drive:big", ["typed1", "unsafe3"]), ("drive:rich", ["typed1", "unsafe2"])],
+            ("drive:big", ["typed1", "unsafe3"]), ("drive:rich", ["typed1", "unsafe2"]), ("suite", [])],
     "C02": [("core", ["typed1", "unsafe1"]), ("rel", ["typed11", "unsafe1"]), ("drive:wide", ["typed1", "unsafe2"]),
-            ("drive:rel2", ["typed11", "unsafe1"]), ("dump", ["typed1", "unsafe2"]), ("drive:reset", ["typed1", "unsafe2"])],
+            ("drive:rel2", ["typed11", "unsafe1"]), ("dump", ["typed1", "unsafe2"]), ("drive:reset", ["typed1", "unsafe2"]), ("suite", [])],
     "C03": [("core", ["typed1", "unsafe1", "typedfill"]), ("rel", ["typed1", "unsafe1", "typed11"]), ("cache", ["typed1"]),
             ("drive:wide", ["typed1", "unsafe2"]), ("drive:rel2", ["typed11", "unsafe1"]), ("drive:lock", ["typed1", "typed11", "unsafe2"]),
             ("cursor", [])],
     "C04": [("rel", ["typed1", "unsafe1", "typed11", "unsafe2"]), ("drive:rel2", ["typed11", "unsafe1"]),
-            ("drive:wide", ["typed1", "unsafe2"])],
+            ("drive:wide", ["typed1", "unsafe2"]), ("suite", [])],
     "C05": [("cache", ["typed1", "typed11", "unsafe1"]), ("drive:wide", ["typed1", "unsafe2"]), ("drive:rel2", ["typed11", "unsafe1"])],
     "C15": [("rel", ["typed1", "unsafe2"]), ("cache", ["typed1", "unsafe1"]), ("shrink", ["typed1", "unsafe2"]),
             ("drive:wide", ["typed1", "unsafe2", "typed53"]), ("drive:rel2", ["typed11", "unsafe1", "unsafe3"])],
@@ -267,7 +267,7 @@ PLANS["C09"] = [("obs", ["typed1", "unsafe2", "typed11", "mapt1"]), ("drive:obs"
 PROP_CFG["C08"] = (dict(probes=1), dict(probes=2))
 PROP_CFG["C09"] = (dict(probes=1), dict(probes=2))
 PLANS["C06"] = [("batch", ["typed1", "typed11", "exch8", "typed53"]), ("drive:wide", ["typed1", "exch8", "typed53"]),
-                ("drive:rel2", ["typed11", "typed1"]), ("drive:rich", ["typed1", "exch8"])]
+                ("drive:rel2", ["typed11", "typed1"]), ("drive:rich", ["typed1", "exch8"]), ("suite", [])]
 PLANS["C19"] = [("statsmodel", []), ("core", ["typed1", "unsafe1"]), ("cache", ["typed1", "unsafe2"]),
                 ("drive:wide", ["typed1", "unsafe2", "typed53"]), ("drive:lock", ["typed1", "unsafe1"]), ("drive:obs", ["typed11"])]
 PROP_CFG["C19"] = (dict(probes=1, stats=True), dict(probes=2, stats=True))
@@ -276,10 +276,10 @@ PLANS["C17"] = [("dump", ["typed1", "unsafe2", "typed53"]), ("drive:reset", ["ty
 PLANS["C11"] = [("core", ["typed1", "unsafe1", "exch8", "mapt1"]), ("batch", ["typed1", "typed53"]),
                 ("drive:mem", ["typed1", "unsafe2", "exch8", "typed11", "mapt42"]), ("drive:big", ["typed1", "unsafe3", "typed53"]), ("drive:mem64", ["typed1", "unsafe3", "typed53"])]
 PLANS["C07"] = [("lock", ["typed1", "unsafe2", "typed11"]), ("drive:lock", ["typed1", "unsafe2", "typed11"]), ("drive:lock64", ["typed1", "unsafe1"]),
-                ("cursor", [])]
+                ("cursor", []), ("suite", [])]
 PROP_CFG["C07"] = (dict(probes=2, misuse=8), dict(probes=4, misuse=-1))
 PLANS["C10"] = [("core", ["typed1", "unsafe1", "exch8", "mapt1"]), ("rel", ["typed1", "unsafe1", "typed11", "mapt1"]),
-                ("drive:rel2", ["typed11", "unsafe1", "mapt42"]), ("drive:wide", ["typed1", "unsafe2", "exch8"])]
+                ("drive:rel2", ["typed11", "unsafe1", "mapt42"]), ("drive:wide", ["typed1", "unsafe2", "exch8"]), ("suite", [])]
 
 
 # ------------------------------------------------------------------------------------------
@@ -886,6 +886,9 @@ def check_generic(ctx):
         if fam == "cursor":
             cursor_stage(ctx, [("plain", ctx.binpath)])
             continue
+        if fam == "suite":
+            suite_trace_stage(ctx)
+            continue
         if fam.startswith("drive:"):
             drive_family(ctx, fam[6:], cells, pc.get("probes", 0),
                          extra_cfg={k: v for k, v in pc.items() if k != "probes"})
@@ -911,7 +914,7 @@ def check_generic(ctx):
             continue
         ctx.stats["sequences"] += gen["nseq"]
         # quick tier: replay a seed-chosen sample of the transitions sized to the budget
-        nbfs = max(1, len([1 for f, _ in plan if not f.startswith("drive:") and f not in ("obsmodel", "obsenum", "statsmodel", "cursor")]))
+        nbfs = max(1, len([1 for f, _ in plan if not f.startswith("drive:") and f not in ("obsmodel", "obsenum", "statsmodel", "cursor", "suite")]))
         budget = (400000 // nbfs) if quick else (9000000 // nbfs)   # events per family
         cs = choose_cells(ctx, cells)
         per_seq = FAMILIES[fam]["tiers"][ctx.tier]["MaxHist"] + 7
@@ -1068,6 +1071,66 @@ def cursor_stage(ctx, bins, product=False):
                 ctx.violations.append(dict(cls="C20.shape", detail="cursor logs differ in length", line=0, ops=None, cfg=cfg, family="cursor", cell=name, cmd=cmd))
             for vi in v["viol"][:200]:
                 ctx.violations.append(dict(cls=vi["cls"], detail=vi["d"], line=vi["l"], ops=None, cfg=cfg, family="cursor", cell=name, cmd=cmd))
+
+
+def suite_trace_stage(ctx):
+    """Trace validation of the library's own test suite: a scratch copy of the repository (outside /repo and /verif,
+    removed afterwards) gets the tracer test file (harness/tracer), `go test -tags verif ./ecs/` runs with the
+    hooks of the library enabled, and the recorded trace - every structural operation of every World the tests
+    create, with the state read back after it - is validated by ArkTrace, world by world."""
+    import tempfile
+    scratch = tempfile.mkdtemp(prefix="arksuite-")
+    try:
+        dst = os.path.join(scratch, "ark")
+        shutil.copytree(REPO, dst, ignore=shutil.ignore_patterns(".git"))
+        shutil.copy(os.path.join(HARNESS, "tracer", "zz_verif_tracer_test.go.txt"), os.path.join(dst, "ecs", "zz_verif_tracer_test.go"))
+        raw = os.path.join(scratch, "trace.ndjson")
+        t0 = time.time()
+        p, dt = run(["go", "test", "-vet=off", "-count=1", "-tags", "verif", "./ecs/"], 1500, env=dict(GOENV, ARK_TRACE_OUT=raw), cwd=dst)
+        if not os.path.exists(raw) or os.path.getsize(raw) == 0:
+            if "TraceSink" in p.stdout or "traceEnabled" in p.stdout or "undefined" in p.stdout:
+                raise Inconclusive("the tracing hooks (build tag verif) are missing or do not compile:\n" + p.stdout[-1500:])
+            raise Inconclusive("the test suite did not produce a trace:\n" + p.stdout[-1500:])
+        suite_ok = p.returncode == 0
+        groups = {}
+        order = []
+        with open(raw) as f:
+            for line in f:
+                try:
+                    wid = json.loads(line).get("wid")
+                except ValueError:
+                    continue
+                if wid not in groups:
+                    groups[wid] = []
+                    order.append(wid)
+                groups[wid].append(line)
+        d = os.path.join(ctx.work, "suite")
+        os.makedirs(d, exist_ok=True)
+        for t in ("ArkTrace.tla", "ArkWorld.tla"):
+            shutil.copy(os.path.join(SPEC, t), d)
+        lp = os.path.join(d, "suite.ndjson")
+        with open(lp, "w") as f:
+            for wid in order:
+                f.writelines(groups[wid])
+        v = run_monitor(ctx, lp)
+        nops = sum(1 for wid in order for x in groups[wid] if '"k":"op"' in x)
+        ctx.stats["traces"] += v["seqs"]
+        ctx.stats["events"] += v["lines"]
+        ctx.stats["cells"].append(dict(family="suite", cell="go test -tags verif ./ecs/", worlds=len(order), operations=nops,
+                                       suite_passed=suite_ok, wall_s=round(time.time() - t0, 1)))
+        lines = open(lp).read().splitlines()
+        for vi in v["viol"]:
+            test = ""
+            try:
+                test = json.loads(lines[vi["l"] - 1]).get("test", "")
+            except Exception:
+                pass
+            ctx.violations.append(dict(cls=vi["cls"], detail="test %s: %s" % (test, vi["d"]), line=vi["l"], ops=None, cfg=dict(test=test),
+                                       family="suite", cell="suite", cmd=["suite-trace"]))
+        log("  suite trace: %d worlds, %d operations, %d events validated (%.0fs)%s" % (
+            len(order), nops, v["lines"], time.time() - t0, "" if suite_ok else " - the suite itself FAILS"))
+    finally:
+        shutil.rmtree(scratch, ignore_errors=True)
 
 
 def variants_for(ctx, pid):
